@@ -782,14 +782,22 @@ def exception_class_of_raise(repo, fi, raise_node):
             return '<unknown>'
         if repo.has_cls(nm):
             return nm
-        # factory in the same module returning an exception instance
-        if nm in fi.module.funcs:
+        # factory (a function of the same module, or a method of the same class hierarchy) returning an exception instance
+        g = None
+        if isinstance(f, ast.Name) and nm in fi.module.funcs:
             g = fi.module.funcs[nm]
+        elif isinstance(f, ast.Attribute) and isinstance(f.value, ast.Name) and f.value.id in ('self', 'cls') and fi.cls is not None:
+            g = repo.method(fi.cls.name, nm, required=False)
+        elif isinstance(f, ast.Attribute) and isinstance(f.value, ast.Name) and repo.has_cls(f.value.id):
+            g = repo.method(f.value.id, nm, required=False)
+        if g is not None:
             rets = [n for n in ast.walk(g.node) if isinstance(n, ast.Return)]
             names = set()
             for r in rets:
                 if isinstance(r.value, ast.Call) and isinstance(r.value.func, ast.Name):
                     names.add(r.value.func.id)
+                else:
+                    names.add('<unknown>')
             if len(names) == 1:
                 return names.pop()
             return '<unknown>'
